@@ -80,12 +80,13 @@ def full_answers(w, keys, universes=(None,)):
     return out
 
 
-def differential(w, keys, universes_fn=None):
+def differential(w, keys, universes_fn=None, fresh=None):
     """
-    Cached-vs-uncached comparison on a throw-away deep copy of the world.
+    Cached-vs-uncached comparison on a throw-away copy of the world: `fresh()` re-builds the world
+    from its history (preferred); without it a deep copy is used.
     Returns list of keys whose answers differ: [(key, with_flag_as_is, with_flag_off)].
     """
-    c = copy.deepcopy(w)
+    c = fresh() if fresh is not None else copy.deepcopy(w)
     unis = (None,) + tuple(universes_fn(c) if universes_fn else ())
     Vertex.NEIGHBOR_CACHING = False
     plain = full_answers(c, keys, unis)
